@@ -289,6 +289,8 @@ fn impl_answer(src: &str) -> String {
     }
 }
 
+struct FamJob { lit: String, var: String, lit_sexpr: String, eval: Option<String> }
+
 struct Job { src: String, tree: Option<E>, kind: &'static str, eval: bool, minimal: bool }
 
 fn main() {
@@ -322,6 +324,81 @@ fn main() {
         jobs.push(Job { src: gen_soup(&mut ctx.rng), tree: None, kind: "soup", eval: false, minimal: false });
     }
 
+    // ---- exhaustive family: a negative literal as the RIGHT operand of op1, followed by op2
+    //      (`a op1 -L op2 c`), every ordered pair of binary operators, vs. the same with a variable
+    let lits: [(&str, &str); 4] = [("2", "2"), ("2.5", "f:2.5"), ("0", "0"), ("9223372036854775808", "9223372036854775808")];
+    let mut fam: Vec<FamJob> = vec![];
+    let mut rot = 0usize;
+    for (i1, op1) in ALL_OPS.iter().enumerate() {
+        for (i2, op2) in ALL_OPS.iter().enumerate() {
+            for (lt, ls) in lits {
+                let shapes: Vec<(String, String)> = vec![
+                    (format!("a {} - {lt} {} c", op1.text(), op2.text()), format!("a {} - zq {} c", op1.text(), op2.text())),
+                    (format!("( a {} - {lt} {} c )", op1.text(), op2.text()), format!("( a {} - zq {} c )", op1.text(), op2.text())),
+                    (format!("(\n a {} - {lt} {} c \n) {} d", op1.text(), op2.text(), op1.text()), format!("(\n a {} - zq {} c \n) {} d", op1.text(), op2.text(), op1.text())),
+                    (format!("f ( a {} - {lt} {} c , - {lt} {} c )", op1.text(), op2.text(), op2.text()), format!("f ( a {} - zq {} c , - zq {} c )", op1.text(), op2.text(), op2.text())),
+                ];
+                for (l, v) in shapes { fam.push(FamJob { lit: l, var: v, lit_sexpr: ls.to_string(), eval: None }); }
+            }
+            // three-operator chains on a rotating third operator
+            for _ in 0..2 {
+                let op3 = ALL_OPS[rot % 15]; rot += 7;
+                let (lt, ls) = lits[(i1 + i2 + rot) % 2];
+                fam.push(FamJob { lit: format!("a {} - {lt} {} c {} d", op1.text(), op2.text(), op3.text()),
+                                  var: format!("a {} - zq {} c {} d", op1.text(), op2.text(), op3.text()), lit_sexpr: ls.to_string(), eval: None });
+            }
+        }
+    }
+    // evaluated instances (operands chosen so that the two possible groupings give different values)
+    let int_ops = [Op::Add, Op::Sub, Op::Mul, Op::Div, Op::Mod, Op::Pow];
+    let flt_ops = [Op::Add, Op::Sub, Op::Mul, Op::Div, Op::Pow];
+    for op1 in int_ops { for op2 in int_ops { for (a, c) in [(9, 4), (17, 3), (100, 5), (7, 2)] { for l in [2, 5, 3] {
+        let src = format!("{a} {} - {l} {} {c}", op1.text(), op2.text());
+        fam.push(FamJob { lit: src.clone(), var: format!("{a} {} - zq {} {c}", op1.text(), op2.text()), lit_sexpr: format!("{l}"), eval: Some(src) });
+    } } } }
+    for op1 in flt_ops { for op2 in flt_ops { for (a, c) in [("9.0", "4.0"), ("1.5", "3.0")] {
+        let src = format!("{a} {} - 2.5 {} {c}", op1.text(), op2.text());
+        fam.push(FamJob { lit: src.clone(), var: format!("{a} {} - zq {} {c}", op1.text(), op2.text()), lit_sexpr: "f:2.5".into(), eval: Some(src) });
+    } } }
+    let fam_out = par_map(&fam, |j| {
+        let (lw, le) = lex_words(&j.lit);
+        let run = j.eval.as_ref().map(|s| run_program(&format!("println({s})\n")));
+        (impl_answer(&j.lit), impl_answer(&j.var), lw, le, run)
+    });
+    for (j, (al, av, words, lex_errs, run)) in fam.iter().zip(fam_out) {
+        ctx.count("stream:neg-literal-right-operand");
+        let canon = |s: &str| s.replace("(neg 0)", "0");
+        // (i) literal ↔ variable: the same tree under the substitution
+        let subst = canon(&av.replace("zq", &j.lit_sexpr));
+        let reference = reference_parse(&words);
+        let min_unwritable = j.lit_sexpr == "9223372036854775808" && reference == "err";
+        if !min_unwritable && canon(&al) != subst {
+            ctx.spec_fail(format!("`{}` parses as {al} but `{}` (a variable in place of the literal) parses as {av}: a negative literal must group like a negated variable", j.lit, j.var));
+        }
+        // (ii) the reference parser (documented table; every `-` restarts at its own level)
+        if canon(&al) != canon(&reference) {
+            ctx.spec_fail(format!("`{}`: the documented table gives {reference}, the parser answered {al}", j.lit));
+        }
+        ctx.count(if reference.starts_with("ok") { "family:ok" } else { "family:err" });
+        // (iii) the Lean model on the real token kinds
+        if lex_errs == 0 { ctx.case(format!("pratt {} #neg-literal-family", words.join(" ")), al.clone()); }
+        if let (Some(r), true) = (run, reference.starts_with("ok ")) {
+            let mut p = RefParser::new(&words);
+            if let Ok(t) = p.bp(0) {
+                let got = match &r.outcome {
+                    Outcome::Done => format!("ok {}", r.out.trim_end_matches('\n')),
+                    Outcome::Error(k) => format!("err {k}"),
+                    o => format!("other {}", o.tag()),
+                };
+                let want = match eval(&t) { Ok(v) => Some(format!("ok {}", render(&v))), Err(Stop::Err(k)) => Some(format!("err {k}")), Err(Stop::Unknown) => None };
+                if let Some(w) = want {
+                    ctx.count("family:evaluated");
+                    if got != w { ctx.spec_fail(format!("`{}` evaluates to `{got}`; by the documented table ({}) it is `{w}`", j.lit, t.sexpr())); }
+                }
+            }
+        }
+    }
+
     let decls = prelude_decls();
     let results = par_map(&jobs, |j| {
         let ans = impl_answer(&j.src);
@@ -335,6 +412,11 @@ fn main() {
         let class = ans.split(' ').next().unwrap_or("").to_string();
         ctx.count(&format!("parse:{class}"));
         if lex_errs == 0 {
+            // the reference parser (documented table) on the same tokens
+            let reference = reference_parse(&words).replace("(neg 0)", "0");
+            if reference != ans.replace("(neg 0)", "0") {
+                ctx.spec_fail(format!("`{}`: the documented table gives {reference}, the parser answered {ans}", j.src));
+            }
             ctx.case(format!("pratt {} #{}", words.join(" "), j.kind), ans.clone());
         } else {
             ctx.count("skipped:lexer-diagnostic");
